@@ -137,6 +137,15 @@ class Hazard:
                 self.stack.pop()
         return "P"
 
+    def module_function(self, name):
+        """a module-level function of the class's module (a helper the Bose factors may have been moved into)"""
+        mname = self.cls.split(":")[0]
+        mod = self.model.mods.get(mname)
+        if mod is None:
+            return None
+        g = mod.funcs.get(name)
+        return g if g is not None and "." not in name else None
+
     def reaches_exp(self, f, seen):
         """does the property body evaluate exp()/expm1(), directly or through other properties of self?"""
         if id(f) in seen:
@@ -146,6 +155,10 @@ class Hazard:
         for c in ast.walk(f):
             if isinstance(c, ast.Call) and (dotted_name(c.func) or "") in EXP_NAMES | EXPM1_NAMES:
                 return True
+            if isinstance(c, ast.Call) and isinstance(c.func, ast.Name):
+                g = self.module_function(c.func.id)
+                if g is not None and self.reaches_exp(g, seen):
+                    return True
             if isinstance(c, ast.Attribute) and isinstance(c.value, ast.Name) and c.value.id == sn:
                 if c.attr in self.unb:
                     continue
@@ -214,6 +227,27 @@ class Hazard:
             return r
         if isinstance(n, ast.Call):
             name = dotted_name(n.func) or ""
+            if isinstance(n.func, ast.Name) and ("def", n.func.id) not in env and self.module_function(n.func.id) is not None \
+                    and self.reaches_exp(self.module_function(n.func.id), set()):
+                fd = self.module_function(n.func.id)
+                params = [a.arg for a in fd.args.args]
+                if len(params) != len(n.args) or n.keywords or fd.args.vararg or fd.args.kwarg:
+                    raise AnalysisError(f"call of the helper {n.func.id} with arguments the hazard analysis does not bind")
+                if n.func.id in self.stack:
+                    raise AnalysisError(f"recursive helper {n.func.id}")
+                self.stack.append(n.func.id)
+                try:
+                    return self.function(fd, "<no self>", {p_: self.expr(a_, env, selfname) for p_, a_ in zip(params, n.args)})
+                finally:
+                    self.stack.pop()
+            if name in ("functools.reduce", "reduce") and len(n.args) >= 2 and (dotted_name(n.args[0]) or "").split(".")[-1] in ("mul", "add", "sub", "truediv"):
+                opn = (dotted_name(n.args[0]) or "").split(".")[-1]
+                comb = {"mul": mul, "add": add, "sub": lambda a_, b_: add(a_, b_, sub=True), "truediv": div}[opn]
+                elt = self.expr(n.args[1], env, selfname)
+                acc = self.expr(n.args[2], env, selfname) if len(n.args) > 2 else elt
+                for _ in range(3):                  # the fold applied a few times reaches the fixed point of the finite class domain
+                    acc = comb(acc, elt)
+                return acc
             if isinstance(n.func, ast.Name) and ("def", n.func.id) in env:
                 fd = env[("def", n.func.id)]
                 params = [a.arg for a in fd.args.args]
@@ -223,6 +257,18 @@ class Hazard:
                 for p_, a_ in zip(params, n.args):
                     inner[p_] = self.expr(a_, env, selfname)
                 return self.function(fd, selfname, inner)
+            UF = {"numpy.add": ast.Add, "numpy.subtract": ast.Sub, "numpy.multiply": ast.Mult, "numpy.divide": ast.Div, "numpy.true_divide": ast.Div,
+                  "operator.add": ast.Add, "operator.sub": ast.Sub, "operator.mul": ast.Mult, "operator.truediv": ast.Div}
+            if name in UF and len(n.args) == 2 and not n.keywords:
+                return self.expr(ast.copy_location(ast.BinOp(n.args[0], UF[name](), n.args[1]), n), env, selfname)
+            if name in ("numpy.negative", "operator.neg") and len(n.args) == 1:
+                return neg(self.expr(n.args[0], env, selfname))
+            if name in ("numpy.power",) and len(n.args) == 2:
+                return self.expr(ast.copy_location(ast.BinOp(n.args[0], ast.Pow(), n.args[1]), n), env, selfname)
+            if name == "numpy.square" and len(n.args) == 1:
+                return power(self.expr(n.args[0], env, selfname), 2)
+            if name == "numpy.reciprocal" and len(n.args) == 1:
+                return div("P", self.expr(n.args[0], env, selfname))
             if name in EXP_NAMES or name in EXPM1_NAMES:
                 a = plain(self.expr(n.args[0], env, selfname))
                 if a in ("U+", "U?", "OVF"):
@@ -232,7 +278,7 @@ class Hazard:
                 if a == "NANH":
                     return "NANH"
                 return "P"
-            if name in ("numpy.sqrt", "numpy.abs", "abs", "numpy.square", "numpy.log1p"):
+            if name in ("numpy.sqrt", "numpy.abs", "abs", "numpy.log1p"):
                 return self.expr(n.args[0], env, selfname)
             if name in ("numpy.log",):
                 a = self.expr(n.args[0], env, selfname)
@@ -241,6 +287,14 @@ class Hazard:
             if any(a in ("OVF", "NANH") for a in args):
                 return "NANH" if "NANH" in args else "OVF"
             return "P"
+        if isinstance(n, (ast.GeneratorExp, ast.ListComp)) and len(n.generators) == 1 and isinstance(n.generators[0].target, ast.Name):
+            # the class of the items: the element expression with the loop variable bound to the class of what is iterated
+            inner = dict(env)
+            inner[n.generators[0].target.id] = self.expr(n.generators[0].iter, env, selfname)
+            return self.expr(n.elt, inner, selfname)
+        if isinstance(n, (ast.Tuple, ast.List)) and n.elts:
+            cls_ = [self.expr(e, env, selfname) for e in n.elts]
+            return "NANH" if "NANH" in cls_ else ("OVF" if "OVF" in cls_ else cls_[0])
         raise AnalysisError(f"unsupported expression in hazard analysis: {src(n)[:60]}")
 
 
